@@ -289,10 +289,14 @@ type Tun struct {
 	ReadGate  func(n int)
 	WriteGate func(bufs [][]byte)
 	WriteErr  error
+	// ReadErrFn, when non-nil, is asked after every successful fill of n >= 1 packets; a non-nil
+	// error is returned TOGETHER with the n packets (like tun.ErrTooManySegments on a GSO read).
+	ReadErrFn func(n int) error
+	failRead  chan error
 }
 
 func NewTun(batch, mtu int) *Tun {
-	t := &Tun{batch: batch, in: make(chan [][]byte, 4096), closed: make(chan struct{}), events: make(chan tun.Event, 16)}
+	t := &Tun{batch: batch, in: make(chan [][]byte, 4096), closed: make(chan struct{}), events: make(chan tun.Event, 16), failRead: make(chan error, 4)}
 	t.mtu.Store(int32(mtu))
 	return t
 }
@@ -314,12 +318,19 @@ func (t *Tun) Read(bufs [][]byte, sizes []int, offset int) (int, error) {
 			if g := t.ReadGate; g != nil {
 				g(n)
 			}
+			if f := t.ReadErrFn; f != nil {
+				if err := f(n); err != nil {
+					return n, err
+				}
+			}
 			return n, nil
 		}
 		t.mu.Unlock()
 		select {
 		case <-t.closed:
 			return 0, os.ErrClosed
+		case err := <-t.failRead:
+			return 0, err
 		case ps := <-t.in:
 			t.mu.Lock()
 			t.pending = append(t.pending, ps...)
@@ -368,6 +379,10 @@ func (t *Tun) Event(e tun.Event) error {
 	t.events <- e
 	return nil
 }
+
+// FailRead makes the next blocked or future Read return (0, err): a fatal TUN read error
+// (e.g. the interface deleted under a running device).
+func (t *Tun) FailRead(err error) { t.failRead <- err }
 
 // Inject queues packets; they are returned in order, at most BatchSize per Read.
 func (t *Tun) Inject(pkts ...[]byte) { t.in <- pkts }
